@@ -85,4 +85,21 @@ theorem tie_processed_nodes :
     C18.processedInsertGuardsBefore = 1 + 2 ∧ C18.processedInsertMarkCallsBefore = 2 ∧
     C18.processedInsertAfterEvict = false ∧ C18.processedSharedByPools = true := by decide
 
+/-- evictPodsFromSourceNodes, the headroom maps step by step (extension round 5) — `evictFromSources`:
+    node pass on  fresh#1 = Σ low-only + Σ both-low node headroom  (`nodeTotal`);
+    then the both-low node headroom is CAPPED, only when it is larger, at what the node pass left
+    (`bothTotal' := vmin bothTotal b1.avail` — not replaced by it: what is left also holds the room of
+    the node-level-only receivers);  prod pass on  fresh#2 = Σ prod-low-only prod headroom +
+    min(both-low prod headroom, capped both-low node headroom)  (`prodTotal`, `prod_headroom_capped`). -/
+theorem tie_headroom_steps :
+    C18.headroomSteps =
+      ["fresh#1[].Add(avail(destinationNodes,false)[])",
+       "fresh#1[].Add(avail(bothDestinationNodes,false)[])",
+       "balancePods(fresh#1)",
+       "avail(bothDestinationNodes,false)[]=fresh#1[] if avail(bothDestinationNodes,false)[].Cmp(fresh#1[])>0",
+       "fresh#2[].Add(avail(prodDestinationNodes,true)[])",
+       "fresh#2[].Add(avail(bothDestinationNodes,false)[]) if avail(bothDestinationNodes,true)[].Cmp(avail(bothDestinationNodes,false)[])>0",
+       "fresh#2[].Add(avail(bothDestinationNodes,true)[]) if not avail(bothDestinationNodes,true)[].Cmp(avail(bothDestinationNodes,false)[])>0",
+       "balancePods(fresh#2)"] := by decide
+
 end KoordVerif.C18
